@@ -108,6 +108,22 @@ def judge(case, part):
             for event in observation["events"]:
                 if event[0] == "err" and event[1] != event[2]:
                     part.fail(tag % "error-location-changed-after-iteration", case, event[1], event[2])
+    # the three readers constructed up front on ONE shared CID, then consumed one after the other:
+    # every mode must still give what it gives on its own
+    m = harness.modules()
+    shared = readermachine.make_cid(config, decls)
+    readers = []
+    for mode in MODES:
+        source, _ = readermachine.store(config, decls, table)
+        readers.append((mode, m["validio"].Reader(shared, source, on_error=mode)))
+    for mode, reader in readers:
+        observation = readermachine.run_reader(shared, None, mode, reader=reader)
+        part.transitions += 1
+        part.validated += 1
+        own_events, own_raised = runs[mode]
+        got = [[e[0], e[1]] for e in observation["events"]]
+        if got != own_events:
+            part.fail(tag % ("readers-constructed-up-front:%s-differs-from-its-own-run" % mode), case, own_events, got)
     return (snapshot, len(raw), tuple(e[0] for e in yield_events))
 
 
